@@ -40,6 +40,10 @@ CHECKS = {
    text="Kernel level: the decythonised estimator.pyx is executed symbolically for <=4 points (5 in thorough), <=3 bins, <=2 fields with symbolic values and symbolic NaN flags, dim 1-3, Euclidean and haversine distance, Matheron and Cressie, two directions with symbolic tolerance/bandwidth, overlapping and separated directions, structured and masked grids; accumulators and pair counts are proved equal to pair enumeration with half-open bins, the direction test equal to its documented predicate, the normalisation functions equal to their closed form (empty bins -> 0). Wrapper level: the real vario_estimate / vario_estimate_axis run symbolically with the kernels interpreted from source: estimates, counts and bin centres equal the definition on the caller's original inputs for plain, NaN, no_data, mask and masked-array inputs and several fields; directions are normalised, angles follow (cos a, sin a), separated-directions flag <=> angle between directions >= 2 tol, great-circle edges are divided by geo_scale, structured meshes expand in ij order, axis estimator along x/y with missing cells.",
    note="sizes bounded as stated (loop nests are uniform in size); Cressie end-to-end through the wrapper is split (data/estimator code reach the kernel + kernel-level proof) because the 4th-power identity is undecided as one query; standard_bins values and fit_normalizer are outside.",
    technique="symbolic interpretation of the .pyx kernels (state merging) inside symbolic execution of the Python wrappers + SMT equivalence with pair enumeration", ref="DESIGN.md §4 C08"),
+ "C09": dict(engine="E1-symnp + E2-kernel", level="model_checking",
+   text="Relational obligations between two symbolic runs of the real vario_estimate (kernels interpreted from the .pyx source) on 3 (thorough 4) symbolic 2-D points: permutation of the points, translation by a symbolic vector, rotation by a symbolic angle, field + constant, field x factor => factor^2 x estimate (factors 2 and -1.5), mask / NaN / no_data == the point removed (two fields, common mask), constant mean and callable (uninterpreted) trend == estimate of the detrended field, lat-lon with geo_scale R and edges B == geo_scale 1 and edges B/R (also on the edges that reach the kernel), structured mesh == generate_grid point list, seeded down-sampling == the estimate on the chosen index subset, drawn without replacement from range(n) with the given seed; the kernel's direction test is invariant under a common rotation of pair vector and unit direction (with and without bandwidth).",
+   note="numpy.random.RandomState.choice is a stub returning harness-chosen index vectors (its replace flag, population, size and seed are obligations); directional rotation invariance is compositional (dir_test invariance + distance invariance + the C08 decomposition); sizes bounded; fit_normalizer outside.",
+   technique="relational symbolic execution (two runs, one solver query per bin) with polynomial hint lemmas", ref="DESIGN.md §4 C09"),
 }
 
 PENDING_REASON = "check not built yet in this session (work in progress; see DESIGN.md §7 build order)"
